@@ -24,10 +24,10 @@ EXPLANATION = (
     "SchemaErrors, SchemaDefinitionError, SchemaInitError, TypeError for non-dataframes) or is one of the sites "
     "enumerated in the confirmed table. (R5) every Index.to_frame() conversion in the pandas backends allows duplicate level names (allow_duplicates=True or the shared _multiindex_to_frame helper), since it runs outside the user-check fence. R4 also discharges a raise under `X.attr is None` in a private helper when every reference to the helper sits under `X.attr is not None`. " 
     "NOT decided: implicit exceptions raised inside pandas/polars; "
-    "UnboundLocalError (definite assignment) - cross-reference only."
+    "UnboundLocalError caused by value-level invariants (a handler running before the assignments of its try body, an empty loop) - R6 decides the branch-induced part only: (R6) no function reachable from validate reads a local that a branch-only path from its entry leaves unassigned (CFG may-analysis with correlated guards pruned)."
 )
 LEVEL_RULE = "one obligation per restore pattern / run_check site / typestate use / reachable raise statement"
-FLOORS = {"R1": 2, "R2": 5, "R3": 4, "R4": 40, "R5": 2}
+FLOORS = {"R1": 2, "R2": 5, "R3": 4, "R4": 40, "R5": 2, "R6": 1}
 
 DOCUMENTED = {"SchemaError", "SchemaErrors", "SchemaDefinitionError", "SchemaInitError", "ParserError"}
 # raise sites outside the documented set, confirmed by reading (function short name, exception class) -> reason
@@ -460,6 +460,7 @@ def r4_raises(ctx):
         "pandera/api/pandas/", "pandera/api/polars/", "pandera/errors.py", "pandera/validation_depth.py", "pandera/config.py"))
     states, seen = cg.reachable_catching(roots, stop=lambda g: not in_scope(g))
     ctx.stats["functions_reachable_from_validate"] = len(states)
+    ctx._c06_reachable = sorted(states)
     n = 0
     from ..callgraph import caught_at
     for q in sorted(states):
@@ -565,10 +566,72 @@ def r5_duplicate_level_names(ctx):
         raise AnalysisError("no index-to-frame conversion found in the pandas backends")
 
 
+SELFTEST_R6 = """
+def pick(a, b):
+    if a:
+        x = 1
+    elif b:
+        x = 2
+    return x
+
+def fine(a, items):
+    if a:
+        x = 1
+    for i in items:
+        y = i
+    try:
+        z = next(items)
+    except StopIteration:
+        pass
+    if a:
+        return x, y, z
+    return None
+"""
+
+
+def r6_definite_assignment(ctx):
+    """An UnboundLocalError is not a documented outcome of validate.  Every function reachable from a public validate
+    entry is checked for reads of a local that a branch-only path reaches without an assignment (a local assigned on some
+    arms of an if/elif/match and read after the join).  The analysis is optimistic about what no static argument in reach
+    settles - a handler runs after the assignments of its try body, a `for` body is assumed to have run when the code
+    after it reads what it assigns - and follows correlated guards (`if c: x = ...` ... `if c: use(x)`) by pruning the
+    branches that contradict the conditions of the read."""
+    from ..defassign import maybe_unbound
+    import ast as _ast
+    t = _ast.parse(SELFTEST_R6)
+    for n in _ast.walk(t):
+        for c in _ast.iter_child_nodes(n):
+            c._parent = n  # type: ignore[attr-defined]
+    got = {fn.name: [(u.id) for u, _, _ in maybe_unbound(fn)] for fn in t.body}
+    if got != {"pick": ["x"], "fine": []}:
+        raise AnalysisError(f"definite-assignment self-test failed: {got}")
+    ix = ctx.ix
+    n = 0
+    for q in getattr(ctx, "_c06_reachable", []):
+        f = ix.funcs[q]
+        if "hypotheses" in f.module.path or f.name in ("strategy", "example", "strategy_component"):
+            continue
+        n += 1
+        bad = maybe_unbound(f.node)
+        if not bad:
+            continue
+        seen = set()
+        for u, nid, why in bad:
+            if u.id in seen:
+                continue
+            seen.add(u.id)
+            ctx.ob("R6", f, f"local `{u.id}` is assigned before it is read", False,
+                   f"`{u.id}` (read at line {u.lineno}) has {why}: UnboundLocalError would escape validate instead of a SchemaError(s)", f.loc(u))
+    ctx.ob("R6", ix.funcs[ctx._c06_reachable[0]], "no branch-only path reads an unassigned local in the functions reachable from validate", True,
+           f"{n} functions analysed")
+    ctx.stats["definite_assignment_functions"] = n
+
+
 def run(ctx):
     r1_restores(ctx)
     r2_fences(ctx)
     r3_typestate(ctx)
     r4_raises(ctx)
     r5_duplicate_level_names(ctx)
+    r6_definite_assignment(ctx)
     ctx.assume("exceptions raised inside pandas/polars/numpy calls are not modelled")
